@@ -3,6 +3,7 @@ import MoneroModel.Drv.C20
 import MoneroModel.Drv.CryptoRef
 import MoneroModel.Model.Keys
 import MoneroModel.Model.SubAddr
+import MoneroModel.Model.ScanRecover
 import MoneroModel.Spec.Sender
 import MoneroModel.Spec.Address
 import MoneroModel.Ref.Base58
@@ -38,6 +39,30 @@ def show2 (o : Option (String × String)) : String := match o with | none => "er
 def encP (P : Ed.Pt) : String := Hex.encode (Ed.encodePt P)
 def encS (n : Nat) : String := Hex.encode (Ed.toBytesLE n 32)
 def H : Bytes → Bytes := Keccak.keccak256
+/-- `<n> <i> <j>` triples of `c09_recover_seq` -/
+def triplesOf : List String → Option (List (Nat × Nat × Nat))
+  | [] => some []
+  | n :: i :: j :: rest => do
+    let n ← u64Of n; let i ← u32Of i; let j ← u32Of j
+    let t ← triplesOf rest
+    pure ((n, i, j) :: t)
+  | _ => none
+def showScs (o : Option (List Nat)) : String := match o with | none => "err" | some l => " ".intercalate (l.map encS)
+def showBool (o : Option Bool) : String := match o with | none => "err" | some b => if b then "true" else "false"
+/-- dalek's permissive `CompressedEdwardsY::decompress` on 32 bytes (what the scan applies to commitments) -/
+def decPerm (b : Bytes) : Option Ed.Pt := if b.length = 32 then Keys.decompressDalek (Ed.leNat b) else none
+def scanErrName : Scan.ScanErr → String
+  | .noTxPublicKey => "NoTxPublicKey"
+  | .missingEcdhInfo => "MissingEcdhInfo"
+  | .missingCommitment => "MissingCommitment"
+  | .invalidCommitment => "InvalidCommitment"
+/-- `Transaction::check_outputs` then `OwnedTxOut::recover_key` on every reported output (`Scan.Owned.recoverKey`) -/
+def showScanRecover (v s : Nat) : Except Scan.ScanErr (List Scan.Owned) → String
+  | .error e => "err " ++ scanErrName e
+  | .ok ws => " ".intercalate (s!"ok {ws.length}" :: ws.map fun w =>
+      match Scan.Owned.recoverKey refOps w v s with
+      | some x => s!"{w.index}:{w.sub.1}/{w.sub.2}:{encS x}"
+      | none => s!"{w.index}:{w.sub.1}/{w.sub.2}:PANIC")
 end C10
 open C10 in
 /-- Operations (all → `err` on both sides if an operand is not an accepted key / number):
@@ -58,25 +83,25 @@ open C10 in
   `get_subaddress(.., Index{0,0}, ..)` of monero-rs returns a SubAddress-typed text of the primary keys instead. -/
 def stepC10 : Step
   | ["c10_derive", a, b] =>
-    some (showPt (do let a ← scalarOf a; let B ← ptModel b; pure (derive refOps a B)),
+    some (showPt (do let a ← scalarOf a; let B ← ptModel b; pure (deriveReceiver refOps a B)),
           showPt (do let a ← scalarOf a; let B ← ptSpec b; pure (Spec.Sender.derivation refPrims a B)))
   | ["c10_derive_wire", a, b] =>
     -- the key arrives in consensus form: `Keys.publicConsensusDecode` (strict: exactly 32 bytes here), then the derivation
     some (showPt (do let a ← scalarOf a
                      let B ← (match Keys.publicConsensusDecode (Hex.decode b) with | some (k, []) => refOps.dec k | _ => none)
-                     pure (derive refOps a B)),
+                     pure (deriveReceiver refOps a B)),
           showPt (do let a ← scalarOf a; let B ← ptSpec b; pure (Spec.Sender.derivation refPrims a B)))
   | ["c10_derive_sender", r, v] =>
-    some (showPt (do let r ← scalarOf r; let V ← ptModel v; pure (derive refOps r V)),
+    some (showPt (do let r ← scalarOf r; let V ← ptModel v; pure (deriveSender refOps r V)),
           showPt (do let r ← scalarOf r; let V ← ptSpec v; pure (Spec.Sender.derivation refPrims r V)))
   | ["c10_onetime", r, v, s, n] =>
     some (showPt (do let r ← scalarOf r; let V ← ptModel v; let S ← ptModel s; let n ← u64Of n
-                     pure (oneTimeKey refOps (derive refOps r V) S n)),
+                     pure (oneTimeKey refOps (deriveSender refOps r V) S n)),
           showPt (do let r ← scalarOf r; let V ← ptSpec v; let S ← ptSpec s; let n ← u64Of n
                      pure (Spec.Sender.sendKey refPrims r ⟨V, S, false⟩ n)))
   | ["c10_onetime_recv", v, s, r, n] =>
     some (showPt (do let v ← scalarOf v; let S ← ptModel s; let R ← ptModel r; let n ← u64Of n
-                     pure (oneTimeKey refOps (derive refOps v R) S n)),
+                     pure (oneTimeKey refOps (deriveReceiver refOps v R) S n)),
           showPt (do let v ← scalarOf v; let S ← ptSpec s; let R ← ptSpec r; let n ← u64Of n
                      pure (Spec.Sender.oneTimeKey refPrims (Spec.Sender.derivation refPrims v R) S n)))
   | ["c09_recover", v, s, r, n, i, j] =>
@@ -111,5 +136,51 @@ def stepC10 : Step
                      pure (Spec.Address.text H (net.getD Net.Mainnet) Kind.SubAddress (Ed.encodePt d.spend) (Ed.encodePt d.view) [])) with
            | some t => Hex.encode t
            | none => "err"))
+  | "c09_recover_seq" :: v :: s :: r :: rest =>
+    -- ONE recoverer object (`Scan.Recoverer`, Model/ScanRecover.lean), all recoveries in order
+    some (showScs (do let v ← scalarOf v; let s ← scalarOf s; let R ← ptModel r; let qs ← triplesOf rest
+                      if qs.isEmpty then none else
+                      pure ((Scan.Recoverer.new refOps v s R).recoverAll refOps qs)),
+          showScs (do let v ← scalarOf v; let s ← scalarOf s; let R ← ptSpec r; let qs ← triplesOf rest
+                      if qs.isEmpty then none else
+                      pure (qs.map fun (n, i, j) =>
+                        let s' := if i = 0 ∧ j = 0 then s else Spec.Sender.subSpendSec refPrims v s i j
+                        (Spec.Sender.derivationScalar refPrims (Spec.Sender.derivation refPrims v R) n + s') % Ed.l)))
+  | ["c10_check", v, s, r, n, key] =>
+    some (showBool (do let v ← scalarOf v; let S ← ptModel s; let R ← ptModel r; let n ← u64Of n; let K ← ptModel key
+                       pure (keyGenCheck refOps (deriveReceiver refOps v R) S n K)),
+          showBool (do let v ← scalarOf v; let S ← ptSpec s; let R ← ptSpec r; let n ← u64Of n; let _ ← ptSpec key
+                       pure (Ed.encodePt (Spec.Sender.oneTimeKey refPrims (Spec.Sender.derivation refPrims v R) S n)
+                               == Hex.decode key)))
+  | ["c10_subcheck", v, s, a, b, c, d, r, n, key] =>
+    some ((match (do let v ← scalarOf v; let S ← ptModel s; let a ← u32Of a; let b ← u32Of b; let c ← u32Of c; let d ← u32Of d
+                     let R ← ptModel r; let n ← u64Of n; let K ← ptModel key
+                     pure ((Scan.Checker.new refOps v S a b c d).check refOps n K R)) with
+           | none => "err" | some none => "none" | some (some (i, j)) => s!"{i}/{j}"), "-")
+  | ["c09_scan_tx", v, s, a, b, c, d, h] =>
+    some ((match (do let v ← scalarOf v; let s ← scalarOf s; let a ← u32Of a; let b ← u32Of b; let c ← u32Of c; let d ← u32Of d
+                     match Monero.tx (Hex.decode h) with
+                     | some (t, []) => pure (showScanRecover v s (Scan.checkOutputsTx refOps decPerm t v (refOps.smul s refOps.base) a b c d))
+                     | _ => none) with
+           | none => "err" | some r => r), "-")
+  | ["c10_rvn", v, r, n] =>
+    some (showSc (do let v ← scalarOf v; let R ← ptModel r; let n ← u64Of n
+                     pure (rvnScalar refOps (deriveReceiver refOps v R) n)),
+          showSc (do let v ← scalarOf v; let R ← ptSpec r; let n ← u64Of n
+                     pure (Spec.Sender.derivationScalar refPrims (Spec.Sender.derivation refPrims v R) n)))
+  | ["c10_derive_raw", _, _] => some ("-", "-")
+  | ["c11_scalar", v, i, j] =>
+    some (showSc (do let v ← scalarOf v; let i ← u32Of i; let j ← u32Of j; pure (subScalar refOps v i j)),
+          showSc (do let v ← scalarOf v; let i ← u32Of i; let j ← u32Of j; pure (Spec.Sender.subScalar refPrims v i j)))
+  | ["c11_sub_keys", v, s, i, j] =>
+    some ((match (do let v ← scalarOf v; let s ← scalarOf s; let i ← u32Of i; let j ← u32Of j
+                     let k := subSecretKeys refOps v s i j
+                     pure [k.1, k.2, subViewSec refOps v s i j, subSpendSec refOps v s i j]) with
+           | some l => " ".intercalate (l.map encS) | none => "err"),
+          (match (do let v ← scalarOf v; let s ← scalarOf s; let i ← u32Of i; let j ← u32Of j
+                     let (a, b) := if i = 0 ∧ j = 0 then (v, s)
+                                   else (Spec.Sender.subViewSec refPrims v s i j, Spec.Sender.subSpendSec refPrims v s i j)
+                     pure [a, b, a, b]) with
+           | some l => " ".intercalate (l.map encS) | none => "err"))
   | _ => none
 end Drv
